@@ -30,17 +30,17 @@ def valid_name(name):
     for part in name:
         if isinstance(part, str) and part:
             continue
-        if isinstance(part, int) and not isinstance(part, bool) and part >= 0:
+        if isinstance(part, int) and part >= 0:     # int subclasses included (bool, IntEnum members)
             continue
-        if isinstance(part, bool):
-            return "bool"     # accepted by the code as an int; the harness never generates it
         return None
     return tuple(name)
 
 
 def names_conflict(a, b):
     m = min(len(a), len(b))
-    return all(type(x) is type(y) and x == y for x, y in zip(a[:m], b[:m]))
+    # equality of parts is Python equality: 0 != '0', but an IntEnum member, a bool or another int subclass equals
+    # the int of the same value, and a str-mixin Enum member equals its string value
+    return all(x == y for x, y in zip(a[:m], b[:m]))
 
 
 class Pred:
